@@ -93,7 +93,12 @@ def date(  # noqa: PLR0912 PLR0911
         elif dat.isdigit():
             # The reference implementation does not support string
             # representations of negative integers either.
-            dat = datetime.datetime.fromtimestamp(int(dat))
+            try:
+                dat = datetime.datetime.fromtimestamp(int(dat))
+            except (OverflowError, OSError, ValueError):
+                # Out of range for a timestamp, or digits that `int` does not
+                # accept (superscripts). Input is returned unchanged.
+                return str(dat)
         else:
             try:
                 dat = _parse_date_string(
@@ -102,14 +107,14 @@ def date(  # noqa: PLR0912 PLR0911
                         hour=0, minute=0, second=0, microsecond=0
                     ),
                 )
-            except parser.ParserError:
+            except (parser.ParserError, OverflowError):
                 # Input is returned unchanged. This is consistent
                 # with the reference implementation.
                 return str(dat)
     elif isinstance(dat, int):
         try:
             dat = datetime.datetime.fromtimestamp(dat)
-        except (OverflowError, OSError):
+        except (OverflowError, OSError, ValueError):
             # Testing on Windows shows that it can't handle some
             # negative integers.
             return str(dat)
